@@ -14,14 +14,14 @@ func init() {
 	register(&Property{
 		ID:          "C13",
 		Run:         runC13,
-		Explanation: "Decides the structural clauses of a lossless live processor swap: (R1) the node's processor is replaced only inside applyPendingSwap; (R2) which runs only in the node's Run goroutine, once per loop iteration, before the next record is received; (R3) open-before-teardown — the replacement happens only on the new processor's Open success edge, the old processor is torn down after the replacement, and on the failure edge the current processor is kept, the failed one is torn down and the caller receives a non-nil error; (R4) the hand-off state is mutex-guarded, a cancelled Reconfigure withdraws only its own request, a second concurrent request is refused; (R5) neither TeardownForReconfigure nor MakeRunnableProcessorForReconfigure touches the instance's running flag; (R6) live-swap entry points have closed caller sets, the store is updated before nodes are swapped, and a rollback restores the store before it re-swaps.",
+		Explanation: "Decides the structural clauses of a lossless live processor swap: (R1) the node's processor is replaced only inside applyPendingSwap; (R2) which runs only in the node's Run goroutine, once per loop iteration, before the next record is received; (R3) open-before-teardown — the replacement happens only on the new processor's Open success edge, the old processor is torn down after the replacement, and on the failure edge the current processor is kept, the failed one is torn down and the caller receives a non-nil error; (R4) the hand-off state is mutex-guarded, a cancelled Reconfigure withdraws only its own request, a second concurrent request is refused; (R5) neither TeardownForReconfigure nor MakeRunnableProcessorForReconfigure touches the instance's running flag; (R6) live-swap entry points have closed caller sets, the store is updated before nodes are swapped, and a rollback restores the store before it re-swaps. Rules added later (after independent seeded changes and defect hunts) are not all enumerated here: every armed rule is listed with its description, kind and instance count under coverage.rules.",
 		NotDecided:  []string{"which configuration handled a given record at run time", "liveness of the hand-off when the node's Run has already returned"},
 		Assumptions: []string{"sync.Mutex; buffered channel semantics"},
 	})
 	register(&Property{
 		ID:          "C16",
 		Run:         runC16,
-		Explanation: "Decides the structural clauses of a safe live apply: (R1) ApplyPlan/ApplyPlanLive take the per-pipeline lock (deferred unlock) before they re-plan, and every mutating call is dominated by the re-plan's success and the presented-hash == fresh-hash edge; (R2) on a running pipeline nothing is touched unless the restart authorisation flag is set, and the non-live ApplyPlan refuses a running pipeline; (R3) the authorisation flag reaches ApplyPlanLive only as a constant or a constructor-initialised server field, never from a request; (R4) the restart path is StopAndWait[ok] → transactionalImport[ok] → Start and provisioning never calls the non-draining Stop; (R5) the in-place path runs only for a live-eligible diff, updates the store before swapping, rolls back on any swap error, and the rollback always restores the store first; (R6) the not-running import is preceded by a second running check.",
+		Explanation: "Decides the structural clauses of a safe live apply: (R1) ApplyPlan/ApplyPlanLive take the per-pipeline lock (deferred unlock) before they re-plan, and every mutating call is dominated by the re-plan's success and the presented-hash == fresh-hash edge; (R2) on a running pipeline nothing is touched unless the restart authorisation flag is set, and the non-live ApplyPlan refuses a running pipeline; (R3) the authorisation flag reaches ApplyPlanLive only as a constant or a constructor-initialised server field, never from a request; (R4) the restart path is StopAndWait[ok] → transactionalImport[ok] → Start and provisioning never calls the non-draining Stop; (R5) the in-place path runs only for a live-eligible diff, updates the store before swapping, rolls back on any swap error, and the rollback always restores the store first; (R6) the not-running import is preceded by a second running check. Rules added later (after independent seeded changes and defect hunts) are not all enumerated here: every armed rule is listed with its description, kind and instance count under coverage.rules.",
 		NotDecided:  []string{"the concurrent behaviour itself (composes C06/C15/C03 clauses)", "that the hash covers every relevant part of the state"},
 		Assumptions: []string{"pipelineLocks.Lock is a per-id mutex"},
 	})
